@@ -294,6 +294,13 @@ func genRawStreams(c *ctx, r *vh.Rng) {
 	if c.env.Thorough {
 		n = 600
 	}
+	// a call stack one element beyond the signed 16-bit count: the reader sees a negative count and refuses
+	// (theorem intarray_too_long_rejected); the implementation must refuse where the model does
+	{
+		ms := step.NewMethodStepX()
+		ms.Stack = make([]int32, 32768)
+		c.checkRawStream("MethodStepX-stack-32768", append([]byte{}, step.ToBytesStep([]step.Step{ms})...))
+	}
 	mx, s3 := specOf("MessageStepX"), specOf("SqlStep_3")
 	for i := 0; i < n; i++ {
 		// a MessageStepX behind some registered steps: ReadStep has no constructor for code 22
